@@ -46,10 +46,10 @@ theorem aclGate_none_iff (h : Handler) (r : Req) :
       | some res => cases res <;> simp [hc]
 
 theorem localGate_pass (h : Handler) (r : Req) (c : Nat) (hp : localGate h r = .pass c) :
-    containsSub (firstUpgrade r) sWebsocket = false ∧
+    wsCheck r = false ∧
     (h.enforceHost = true → checkHost h r = true) ∧
     (h.enforceOrigin = true → (getOrigin r).ok = true ∧ originAllowed h (getOrigin r) = true) := by
-  unfold localGate at hp
+  unfold localGate localGateWith at hp
   split at hp
   · cases hp
   · rename_i hws
